@@ -231,3 +231,75 @@ def build_evis_query(db, contracts, consts, name):
     H.append('}')
     parts.append('\n'.join(H))
     return {'c': '\n\n'.join(parts) + '\n', 'entry': 'harness', 'meta': {'function': name, 'level': c.level, 'what': 'evis', 'stubs': rep, 'inlined': inl}}
+
+
+# kernels whose contract is enforced through the generator's own harness (assume requires; run the real body against
+# callee stubs; assert ensures) instead of goto-instrument --dfcc: PbAtShell's two vacancy loops make the DFCC
+# instrumentation (write-set bookkeeping inside unrolled loops) take > 20 min, the direct harness takes seconds.
+# Its frame is then covered by the AST frame scan (C07) like the L3 routines.
+STUB_ENFORCE = {'PbAtShell': ('--unwind', '8', '--unwinding-assertions')}
+
+
+def build_stub_enforce_query(db, contracts, consts, name):
+    f = db['funcs'][name]
+    c = contracts[name]
+    T = db['types']
+    rep, inl, missing = closure(db, contracts, name)
+    if missing:
+        raise bx2c.Unsupported('%s calls unrendered %s' % (name, missing))
+    aspects = ('count', 'draws', 'enom', 'time')
+    parts = [oblig.prelude(db, '')]
+    for n in rep:
+        parts.append(oblig.stub_text(db, contracts[n], consts, 'light', aspects))
+    for n in inl:
+        parts.append(bx2c.Printer(T, bx2c.Opts()).function(db['funcs'][n]))
+    parts.append(bx2c.Printer(T, bx2c.Opts()).function(f))
+    H = ['void harness(void)', '{', '  bx_prng rng; struct event ev; ev._particles_.data = 0; ev._particles_.size = 0; ev._particles_.cap = 0;',
+         '  bx_exc = 0; g_np = nondet_ulong(); g_draws = nondet_ulong(); g_enom = nondet_double(); g_tlast = nondet_double(); g_evis = nondet_double();',
+         '  __CPROVER_assume(g_np <= 1000 && g_draws <= 1000000);']
+    args = []
+    ren = {}
+    for k, (pre, nm, t, isref) in enumerate(f.params):
+        b = bx2c.strip_cv(t.replace('&', '').replace('*', '').strip()).replace('bxdecay0::', '')
+        if b == 'i_random':
+            args.append('&rng')
+        elif b == 'event':
+            args.append('&ev')
+        elif isref or t.strip().endswith('*'):
+            H.append('  %s %s_v = nondet_double();' % (T.c(t.replace('&', '').replace('*', '')), nm))
+            args.append('&%s_v' % nm)
+            ren[nm] = nm + '_v'
+        else:
+            H.append('  %s %s = nondet_%s();' % (T.c(t), nm, 'double' if T.c(t) == 'double' else 'int'))
+            args.append(nm)
+
+    def fix(x):
+        x = oblig.subst_consts(x, consts)
+        for a, b in ren.items():
+            x = re.sub(r'\*%s\b' % re.escape(a), b, x)
+        return x
+    sel = oblig._Sel(c, lambda a: a is None or a in aspects)
+    for k, r in sel.requires:
+        H.append('  __CPROVER_assume(%s);' % fix(r))
+    olds = {}
+    ens = []
+    for e in sel.ensures:
+        e2 = fix(e)
+        for (a, b, kind, inner) in sorted(oblig.find_old(e2), reverse=True):
+            key = (kind, inner)
+            if key not in olds:
+                olds[key] = 'bx_old_%d' % len(olds)
+            e2 = e2[:a] + olds[key] + e2[b:]
+        ens.append((e, e2))
+    for (kind, inner), v in olds.items():
+        H.append('  const %s %s = (%s);' % (oblig.OLDT[kind], v, inner))
+    H.append('  %s(%s);' % (name, ', '.join(args)))
+    H.append('  __CPROVER_assert(!bx_exc, "C04 %s: no exception under its precondition");' % name)
+    for e, e2 in ens:
+        pid = 'C03' if re.search(r'g_evis|g_enom', e) else 'C04'
+        H.append('  __CPROVER_assert(%s, "%s %s ensures: %s");' % (e2, pid, name, e.replace('"', "'")))
+    H.append('  __CPROVER_assert(0, "canary %s: harness end is reachable (must be refuted)");' % name)
+    H.append('}')
+    parts.append('\n'.join(H))
+    return {'c': '\n\n'.join(parts) + '\n', 'entry': 'harness',
+            'meta': {'function': name, 'level': c.level, 'what': 'c04', 'stubs': rep, 'inlined': inl, 'enforced_by': 'generator harness (not DFCC)'}}
